@@ -436,14 +436,16 @@ class Program(Sub):
                 s2['space'] = 'NonSpatial'
                 B, Barr, Bbuf = operand(s2, L, R)
                 before = A.data.copy()
-                if st_.get('swap') and st_['kind'] in ('ma-same',):
-                    res = OPS[st_['op']](B, A)
-                    want = loop_apply(OPS[st_['op']], np.broadcast_to(Barr, ref.shape).copy(), ref)
-                else:
-                    res = OPS[st_['op']](A, B)
-                    want = loop_apply(OPS[st_['op']], ref, Barr)
-                if not hasattr(res, 'data') or res.data.shape != want.shape or not (np.array_equal(res.data, want, equal_nan=True) if exact else
-                                                                                     np.allclose(res.data, want, rtol=1e-9, atol=1e-9 * (np.max(np.abs(want)) + 1e-300), equal_nan=True)):
+                # the reference operand is the array's own current contents (bitwise), not the mirrored ndarray program: after
+                # invert / dot the two agree only to rounding, which a division by a small entry would amplify
+                with np.errstate(all='ignore'):
+                    if st_.get('swap') and st_['kind'] in ('ma-same',):
+                        res = OPS[st_['op']](B, A)
+                        want = loop_apply(OPS[st_['op']], np.broadcast_to(Barr, before.shape).copy(), before)
+                    else:
+                        res = OPS[st_['op']](A, B)
+                        want = loop_apply(OPS[st_['op']], before, Barr)
+                if not hasattr(res, 'data') or res.data.shape != want.shape or not np.array_equal(res.data, want, equal_nan=True):
                     out.fail(sig + 'out-of-place-after-history', 'step %d: out-of-place %s on a MatrixArray with a history of in-place operations (start=%s) differs from '
                              'the operation applied matrix by matrix to its current contents' % (n, st_['op'], spec.get('start', 'random')))
                     break
